@@ -59,7 +59,8 @@ FIXTURES = {
             "ext": [{"list_name": "cities", "name": "a", "label": "A", "state": "x"}, {"list_name": "cities", "name": "b", "state": "y"}]},
     "invalid": {"nodes": [{"k": "q", "c": {"type": "text", "name": "q1", "label": "see ${nosuch}"}}]},
 }
-FIXED_STDERR = [["p", "Error: could not evaluate ", "/data/g/age", ""], ["p", "deep ", "/data/g1/g2/g3/g4/g5/deep_q", " is cyclic"], ["l", "Something about the form"], ["p", "Problem near ", "/data/g/age", " here"], ["k", "Dependency cycle at ", "/html/body/input", "."],
+FIXED_STDERR = [["p", "Error: could not evaluate ", "/data/g/age", ""], ["p", "Invalid calculate for the bind attached to \"", "/data/hh.size", "\" : bad"], ["p", "Error evaluating field 'dbl' (", "/data/member[1]/dbl[1]", ")"],
+                ["p", "Invalid constraint for the bind attached to \"", "/data/item/value", "\""], ["s", "\t... 3 more"], ["x", "Caused by: org.javarosa.xpath.XPathUnhandledException: ", "cannot handle function 'foo'"], ["p", "deep ", "/data/g1/g2/g3/g4/g5/deep_q", " is cyclic"], ["l", "Something about the form"], ["p", "Problem near ", "/data/g/age", " here"], ["k", "Dependency cycle at ", "/html/body/input", "."],
                 ["x", "java.lang.RuntimeException: ", "wrapped message"], ["s", "\tat org.javarosa.core.Model.run(Model.java:12)"],
                 ["d", "duplicated line"], ["l", "Résultat: Invalid XPath"]]
 
@@ -68,7 +69,8 @@ FIXED_STDERR = [["p", "Error: could not evaluate ", "/data/g/age", ""], ["p", "d
 
 WORDS = ["Error", "evaluating", "field", "XPath", "expression", "cycle", "binding", "relevant", "calculate", "problem", "at", "line",
          "Résumé", "form", "instance", "null", "expected", ">>>", "(bad)", "100%", "type mismatch:"]
-SEGS = ["data", "g", "grp_1", "age", "my-field", "q1", "meta", "instanceID", "Repeat9", "x_y"]
+SEGS = ["data", "g", "grp_1", "age", "my-field", "q1", "meta", "instanceID", "Repeat9", "x_y", "hh.size", "prénom", "v1.2", "Ünï", "item", "value", "k.9-z"]
+POSITION = re.compile(r"\[\d+\]$")
 
 
 def render_lines(lines):
@@ -87,7 +89,10 @@ def render_lines(lines):
             exp.append(ln[1])
         elif kind == "p":      # instance path -> ${last segment}
             raw.append(ln[1] + ln[2] + ln[3])
-            exp.append(ln[1] + "${%s}" % ln[2].rsplit("/", 1)[1] + ln[3])
+            exp.append(ln[1] + "${%s}" % POSITION.sub("", ln[2].rsplit("/", 1)[1]) + ln[3])
+        elif kind == "m":      # raw text and its expected cleaning, both spelled out
+            raw.append(ln[1])
+            exp.append(ln[2])
         elif kind == "k":      # paths that must stay
             raw.append(ln[1] + ln[2] + ln[3])
             exp.append(ln[1] + ln[2] + ln[3])
@@ -117,17 +122,26 @@ def gen_lines(g):
         if kind == "l":
             ln = ["l", text]
         elif kind == "p":
-            path = "/" + "/".join(g.pick(SEGS) for _ in range(g.pick([2, 3, 3, 4, 5, 6, 7, 9])))
-            if path.startswith(("/html/body", "/root/item", "/html/head/model/bind")) or path.endswith("/item/value"):
+            # JavaRosa prints positions for nodes in repeats: /data/member[1]/dbl[1]
+            pos = g.p("_", 0.3)
+            path = "/" + "/".join(g.pick(SEGS) + (f"[{g.integer(1, 12)}]" if pos and i and g.p("_", 0.6) else "")
+                                  for i in range(g.pick([2, 3, 3, 4, 5, 6, 7, 9])))
+            if path.startswith(("/html/body", "/root/item", "/html/head/model/bind")) or path == "/item/value":
                 path = "/data/q1"
             ln = ["p", text + " ", path, g.pick(["", " is wrong", ".", ")"])]
         elif kind == "k":
-            path = g.pick(["/html/body/select1", "/html/body/group/input", "/html/head/model/bind", "/data/list/item/value", "/root/item/name"])
+            path = g.pick(["/html/body/select1", "/html/body/group/input", "/html/head/model/bind", "/root/item/name"])
             ln = ["k", text + " ", path, g.pick(["", " stays"])]
+            if g.p("_", 0.25):
+                # a body path with a predicate: only the instance path inside it is tokenised, the /item/value tail stays
+                ln = ["m", text + " /html/body/select1[@ref=/data/grp_1/q1]/item/value", text + " /html/body/select1[@ref=${q1}]/item/value"]
         elif kind == "x":
-            ln = ["x", g.pick(["java.lang.RuntimeException: ", "org.javarosa.xpath.XPathUnhandledException: "]), text]
+            ln = ["x", g.pick(["java.lang.RuntimeException: ", "org.javarosa.xpath.XPathUnhandledException: ", "Caused by: ",
+                               "Caused by: org.javarosa.xpath.XPathUnhandledException: ", "Caused by: java.lang.RuntimeException: "]), text]
         elif kind == "s":
             ln = ["s", "\tat org.javarosa.%s.%s(%s.java:%d)" % (g.pick(["core", "xform", "xpath"]), g.pick(["parse", "eval", "run"]), g.pick(["A", "Parser"]), g.integer(1, 999))]
+            if g.p("_", 0.3):
+                ln = ["s", "\t... %d more" % g.integer(1, 40)]
         else:
             ln = ["d", text]
         # the expected cleaning is stated per line: keep adjacent lines distinct so that only 'd' lines are duplicates
@@ -137,6 +151,10 @@ def gen_lines(g):
         out.insert(0, ["l", "First line"])
     if g.p("_", 0.15):
         # a console code page that is not UTF-8 (e.g. cp850 u-umlaut 0x81): the stream is read as latin-1
+        # (the whole stream is then mojibake: paths with non-ASCII names are kept out of it, their tokenisation is not defined)
+        for ln in out:
+            if ln[0] == "p":
+                ln[2] = ln[2].replace("prénom", "prenom").replace("Ünï", "Uni")
         out.insert(g.integer(0, len(out)), ["b", (b"Ung" + bytes([g.pick([0x81, 0x8d, 0x8f, 0x90, 0x9d, 0xfc, 0xe9])]) + b"ltig " + g.pick(WORDS[:8]).encode("ascii")).hex()])
     if g.p("_", 0.3):
         # validators often start with an 'Error: ' line; only the jar launcher's own 'Unable to access jarfile' text is passed through as is
@@ -340,7 +358,7 @@ def _evaluate(case, box, out):
     cell = f"{outcome}|{entry}"
     out.label(f"outcome:{outcome}", f"entry:{entry}", f"form:{case['form']}")
     for ln in case["stderr"]:
-        out.label({"l": "line:plain", "p": "line:path", "k": "line:kept-path", "x": "line:prefix", "s": "line:stack", "d": "line:dup", "b": "line:non-utf8"}[ln[0]])
+        out.label({"l": "line:plain", "p": "line:path", "k": "line:kept-path", "m": "line:kept-path", "x": "line:prefix", "s": "line:stack", "d": "line:dup", "b": "line:non-utf8"}[ln[0]])
     src = write_input(box, case)
     ref = reference(src, pretty if entry != "lib" else pretty)
     if ref["status"] == "crash":
@@ -435,6 +453,11 @@ def _evaluate(case, box, out):
         elif verdict == "reject-real":
             if res["status"] != "odk-error" or "jarfile" not in res["message"]:
                 out.fail("C18.lib-outcome", "corrupt-jar", str(res)[:300])
+            else:
+                # the launcher's own diagnostic names a file, not an instance node: it is carried as it is
+                out.checked("C18.cleaned-message")
+                if "ODK_Validate.jar" not in res["message"] or "${" in res["message"]:
+                    out.fail("C18.cleaned-message", "corrupt-jar-path-rewritten", f"got {res['message']!r}")
         else:
             if res["status"] != "os-error" or "Java" not in res["message"]:
                 out.fail("C18.lib-outcome", "java-absent", str(res)[:300])
